@@ -189,7 +189,7 @@ impl Property for C20 {
     }
     fn budget(&self, tier: Tier) -> Budget {
         match tier {
-            Tier::Quick => Budget { cases: 6000, shards: 16, min_len: 12, max_len: 120 },
+            Tier::Quick => Budget { cases: 18_000, shards: 16, min_len: 12, max_len: 120 },
             Tier::Thorough => Budget { cases: 200_000, shards: 16, min_len: 12, max_len: 120 },
         }
     }
